@@ -47,6 +47,10 @@ fn unzig(v: u128) -> i128 {
 
 // ---- C15 -----------------------------------------------------------------------------------
 
+thread_local! {
+    static CLEARED_DATA_OFFSET: std::cell::Cell<Option<(usize, usize)>> = const { std::cell::Cell::new(None) };
+}
+
 struct Prep<A: VArena> {
     arena: A,
     copy: Vec<u8>,
@@ -61,6 +65,16 @@ fn prepare<A: VArena>(rng: &mut Rng, cap: u32, fill_to: u32, unify: bool, reserv
         .with_freelist(Freelist::None)
         .alloc::<A>()
         .expect("arena");
+    // every third arena has been used and cleared before (a cleared arena is as good as a fresh one: the
+    // accessors must describe it the same way)
+    if (cap + fill_to + reserved) % 3 == 0 {
+        let d0 = arena.data_offset();
+        let _ = arena.alloc_bytes((cap / 4).max(1));
+        let _ = unsafe { arena.clear() };
+        CLEARED_DATA_OFFSET.with(|c| c.set(Some((d0, arena.data_offset()))));
+    } else {
+        CLEARED_DATA_OFFSET.with(|c| c.set(None));
+    }
     // write non-zero bytes (mostly continuation bytes) everywhere in the data area, also above the cursor
     unsafe { arena.rewind(ArenaPosition::End(0)) };
     let d = arena.data_offset();
@@ -102,8 +116,25 @@ fn sweep<A: VArena>(out: &mut Out, pr: &Prep<A>, offsets: &[usize], label: &str,
     let allocated = pr.allocated;
     let cap = pr.copy.len();
     // slice accessors
-    if a.allocated_memory().len() != allocated || a.data().len() != allocated - a.data_offset() || a.memory().len() != a.capacity() || a.capacity() != cap {
-        out.viol("C15", "slice-lengths", crate::jobj!("message" => format!("allocated_memory().len()={} data().len()={} memory().len()={} with allocated()={} data_offset()={} capacity()={}", a.allocated_memory().len(), a.data().len(), a.memory().len(), allocated, a.data_offset(), a.capacity())));
+    if let Some((d0, d1)) = CLEARED_DATA_OFFSET.with(|c| c.get()) {
+        out.inc("c15_slice_length_checks_on_cleared_arenas");
+        if d0 != d1 {
+            out.viol("C15", "slice-lengths:data-offset-moved-by-clear", crate::jobj!("message" => format!("data_offset() was {} before clear() and is {} after it (data() = allocated_memory()[data_offset()..])", d0, d1)));
+            return;
+        }
+    }
+    let lens = std::panic::catch_unwind(std::panic::AssertUnwindSafe(|| (a.allocated_memory().len(), a.data().len(), a.memory().len())));
+    match lens {
+        Err(_) => {
+            let (loc, msg) = crate::seq::LAST_PANIC.with(|p| p.borrow().clone());
+            out.viol("C15", "slice-accessor-panicked", crate::jobj!("message" => format!("allocated_memory() / data() / memory() panicked at {}: {} (allocated()={} data_offset()={} capacity()={})", loc, msg, allocated, a.data_offset(), a.capacity())));
+            return;
+        }
+        Ok((am, dl, ml)) => {
+            if am != allocated || Some(dl) != allocated.checked_sub(a.data_offset()) || ml != a.capacity() || a.capacity() != cap {
+                out.viol("C15", "slice-lengths", crate::jobj!("message" => format!("allocated_memory().len()={} data().len()={} memory().len()={} with allocated()={} data_offset()={} capacity()={}", am, dl, ml, allocated, a.data_offset(), a.capacity())));
+            }
+        }
     }
     out.inc("c15_slice_length_checks");
     macro_rules! fixed {
